@@ -97,11 +97,14 @@ Definition norm_row (r : arow) : arow :=
   let '(e, b, n, c, st) := r in
   if negb e || ((b =? 0) && (n =? 0) && (c =? 0)) then (false, 0, 0, 0, st) else r.
 
-(** [Exist] is compared only on non-empty accounts: the generator follows every Exist by Empty *)
+(** [Exist] is compared only on non-empty accounts (the generator follows every Exist by Empty);
+    the zero hash and the empty-code hash returned by GetCodeHash are identified, as the
+    interpreter does (evm.create collision test; EXTCODEHASH asks Empty first) *)
 Fixpoint norm_rets (ops : list op) (rs : list ret) : list ret :=
   match ops, rs with
   | OExist a :: ((OEmpty b :: _) as ops'), [e] :: (([m] :: _) as rs') =>
     (if (a =? b) && (m =? 1) then [0] else [e]) :: norm_rets ops' rs'
+  | OGetCodeHash _ :: ops', [h] :: rs' => [if h =? NOHASH then 0 else h] :: norm_rets ops' rs'
   | _ :: ops', r :: rs' => r :: norm_rets ops' rs'
   | _, _ => rs
   end.
